@@ -251,7 +251,7 @@ def local_tuples(assumptions, grp, memo, solver='z3', timeout=600):
         for l in TM._lits(a):
             ls = support(l, memo)
             # conjuncts about (almost) everything are left out: they cannot be projected cheaply
-            if ls & sup and len(ls) <= 40:
+            if ls & sup and len(ls) <= 64:
                 lits.append(l)
     e = Enumerator(lits, grp, solver, timeout)
     try:
